@@ -79,6 +79,7 @@ def check(rep: Report, ctx: Ctx) -> None:
     r523(rep, ctx)
     r524(rep, ctx)
     r525(rep, ctx)
+    r526(rep, ctx)
 
 
 # --------------------------------------------------------------------------
@@ -1745,3 +1746,24 @@ def r525(rep: Report, ctx: Ctx) -> None:
     rep.rule("R5.25", "model nodes: per-direction containers, kill flags and "
              "the lonely merge of a gate (= C01 R1.28)", 21)
     c01.node_tables(rep, ctx, "R5.25")
+
+
+def r526(rep: Report, ctx: Ctx) -> None:
+    """"Names exactly the observed events" has premises that other
+    properties decide; a change that breaks one of them makes events vanish
+    from, or appear in, the diagram (seeds C05-d, C05-p, C05-r, each caught
+    only by the neighbouring check until these were shared): a loaded model
+    keeps its gate trees (= C04 R4.1), the model a job is learned into is
+    this job's own (= C04 R4.4), loop placeholders get distinct names
+    (= C07 R7.18)."""
+    from .util import borrow
+    from . import c04 as _c04, c07 as _c07
+    rep.rule("R5.26", "every write of an event's successor sets marks its "
+             "cached gate tree stale (= C04 R4.1)", 3)
+    borrow(rep, ctx, _c04, "C04", "R4.1", "R5.26")
+    rep.rule("R5.27", "the dictionary a job is learned into is the one "
+             "handed in for that job (= C04 R4.4)", 5)
+    borrow(rep, ctx, _c04, "C04", "R4.4", "R5.27")
+    rep.rule("R5.28", "loop placeholders of one graph get distinct names "
+             "(= C07 R7.18)", 1)
+    borrow(rep, ctx, _c07, "C07", "R7.18", "R5.28")
